@@ -201,7 +201,7 @@ def chanfile_error_part(ctx, rng):
             ch.send(items)
             f = ch.makefile("r")
             outs = []
-            calls = [("read", rng.randint(1, 4)) for _ in range(rng.randint(1, 5))] + [("read", 50), ("readline",), ("waitclose",), ("receive",)]
+            calls = [("read", rng.randint(1, 4)) for _ in range(rng.randint(1, 5))] + [("read", 50), ("readline",), ("read", 50), ("read", 50), ("waitclose",), ("receive",)]
             for c in calls:
                 try:
                     if c[0] == "read":
